@@ -665,6 +665,11 @@ def rule_builder_frame(cad, rep, adt, setters, rid='builder', value_only=False, 
             rep.ob(rid, '%s::%s/value' % (short, b.name), okv, b.where(), 'stores Some(param) into `%s`' % exp[0] if okv else '%s does not store Some(argument) into `%s`' % (b.name, exp[0]))
             continue
         if not okshape:
+            if exp is None and protect is None:
+                # a builder method outside the table (new API, e.g. a bulk setter folding over a known one): nothing is
+                # claimed about it here; what the *known* setters and the constructor do is checked
+                rep.note('%s::%s: shape not followed, not part of this rule' % (short, b.name))
+                continue
             rep.bad(rid, '%s::%s/frame' % (short, b.name), b.where(), 'setter returns %s: cannot see that the other fields are kept' % [fmt(r)[:160] for r in rts])
             continue
         if exp is None:
